@@ -444,7 +444,9 @@ func sel(x, s string) *ast.SelectorExpr {
 
 func call(fun ast.Expr, args ...ast.Expr) *ast.CallExpr { return &ast.CallExpr{Fun: fun, Args: args} }
 
-func strLit(s string) *ast.BasicLit { return &ast.BasicLit{Kind: token.STRING, Value: strconv.Quote(s)} }
+func strLit(s string) *ast.BasicLit {
+	return &ast.BasicLit{Kind: token.STRING, Value: strconv.Quote(s)}
+}
 
 func tickStmt() ast.Stmt { st.Ticks++; return &ast.ExprStmt{X: call(sel("_vrt", "Tick"))} }
 
